@@ -199,3 +199,48 @@ void _ZNSt11range_errorD1Ev(struct S_class_std_range_error *e) { (void)e; }
 #ifdef IR2C_NEED__ZNSt11range_errorD2Ev
 void _ZNSt11range_errorD2Ev(struct S_class_std_range_error *e) { (void)e; }
 #endif
+/* ---- containers: out-of-line pieces of std::unordered_map / std::string (models written against IR2C_ARGS_/IR2C_RET_) */
+#ifdef IR2C_NEED__ZSt20__throw_out_of_rangePKc
+#ifndef IR2C_NEED__ZSt24__throw_out_of_range_fmtPKcz
+struct ir2c_typeinfo ir2c_ti_out_of_range = { (void *)&ir2c_class_vt, "St12out_of_range", 0 };
+#endif
+void _ZSt20__throw_out_of_rangePKc(uint8_t *msg) { (void)msg; ir2c_throw_std(&ir2c_ti_out_of_range); }
+#endif
+/* std::_Hash_bytes: a fixed polynomial over the first <= 8 bytes and the length (injective on strings of <= 7 bytes;
+ * only determinism matters for correctness of the containers) */
+#ifdef IR2C_NEED__ZSt11_Hash_bytesPKvmm
+uint64_t _ZSt11_Hash_bytesPKvmm(uint8_t *p, uint64_t len, uint64_t seed) {
+  uint64_t h = len; (void)seed;
+  for (uint64_t i = 0; i < 8; i++) { if (i >= len) break; h = h * (uint64_t)257 + (uint64_t)p[i]; }
+  return h;
+}
+#endif
+/* hash table growth policy: never rehash (the table keeps its initial single bucket; all elements chain there).
+ * Sound for functional behaviour: libstdc++ accepts any bucket count, only performance depends on it. */
+#ifdef IR2C_NEED__ZNKSt8__detail20_Prime_rehash_policy14_M_need_rehashEmmm
+IR2C_RET__ZNKSt8__detail20_Prime_rehash_policy14_M_need_rehashEmmm _ZNKSt8__detail20_Prime_rehash_policy14_M_need_rehashEmmm(IR2C_ARGS__ZNKSt8__detail20_Prime_rehash_policy14_M_need_rehashEmmm) {
+  IR2C_RET__ZNKSt8__detail20_Prime_rehash_policy14_M_need_rehashEmmm r;
+  (void)a0; (void)a1; (void)a2; (void)a3;
+  r.f0 = 0; r.f1 = 0;
+  return r;
+}
+#endif
+/* std::allocator<char>: stateless */
+#ifdef IR2C_NEED__ZNSaIcEC2Ev
+void _ZNSaIcEC2Ev(IR2C_ARGS__ZNSaIcEC2Ev) { (void)a0; }
+#endif
+#ifdef IR2C_NEED__ZNSaIcEC1Ev
+void _ZNSaIcEC1Ev(IR2C_ARGS__ZNSaIcEC1Ev) { (void)a0; }
+#endif
+#ifdef IR2C_NEED__ZNSaIcED2Ev
+void _ZNSaIcED2Ev(IR2C_ARGS__ZNSaIcED2Ev) { (void)a0; }
+#endif
+#ifdef IR2C_NEED__ZNSaIcED1Ev
+void _ZNSaIcED1Ev(IR2C_ARGS__ZNSaIcED1Ev) { (void)a0; }
+#endif
+#ifdef IR2C_NEED__ZNSaIcEC2ERKS_
+void _ZNSaIcEC2ERKS_(IR2C_ARGS__ZNSaIcEC2ERKS_) { (void)a0; (void)a1; }
+#endif
+#ifdef IR2C_NEED__ZNSaIcEC1ERKS_
+void _ZNSaIcEC1ERKS_(IR2C_ARGS__ZNSaIcEC1ERKS_) { (void)a0; (void)a1; }
+#endif
